@@ -396,6 +396,9 @@ int main(int argc, char **argv)
     memset(&sa, 0, sizeof(sa));
     sa.sa_handler = on_cpu;
     sigaction(SIGPROF, &sa, NULL);
+    /* every answer line leaves the process at once: an abort (assertion, sanitizer) in a later call
+     * must not take earlier answers with it */
+    setvbuf(stdout, NULL, _IOLBF, 1 << 16);
 
     while (fgets(line, sizeof(line), stdin)) {
         char op[32];
